@@ -18,6 +18,8 @@ import SkNet.Lemmas.Dedup
 import SkNet.Lemmas.CyclesFuel
 import SkNet.Lemmas.Closure
 import SkNet.Lemmas.Complete
+import SkNet.Lemmas.BreakInv
+import SkNet.Lemmas.BreakAcyclic
 
 namespace SkNet.C12
 open SkNet SkNet.Connectivity SkNet.Cycles
@@ -655,5 +657,149 @@ theorem breakCycles_subgraph (fuel : Nat) (ext : BreakExt) (m : Mat) (root : Opt
   obtain ⟨hlen, hsub⟩ := breakCyclesWith_rows_sub fuel ext m root directed a h
   refine ⟨by rw [hlen]; simp [noLoopRows], fun i j hj => ?_⟩
   exact (mem_noLoopRows m i j).mp (hsub i j hj)
+
+/-- self-loops do not matter for reachability: the adjacency `break_cycles` works on reaches what the input reaches -/
+theorem reach_noLoop_iff (m : Mat) (hwf : WF m.nRow m.adj) {u : Nat} (hu : u < m.nRow) (v : Nat) :
+    Reach m.adj u v ↔ Reach (noLoopRows m).row u v := by
+  constructor
+  · intro h
+    induction h with
+    | refl => exact Reach.refl _
+    | @tail x y hp he ih =>
+      by_cases hxy : y = x
+      · rw [hxy]; exact ih
+      · exact Reach.tail ih ((mem_noLoopRows m x y).mpr ⟨Reach.lt hwf hp hu, he, hxy⟩)
+  · exact Reach.mono (fun x y hy => ((mem_noLoopRows m x y).mp hy).2.1)
+
+theorem resolveDirected_false {m : Mat} {directed : Option Bool} (h : resolveDirected m directed = .ok false) :
+    m.isSymmetric = .ok true := by
+  unfold resolveDirected at h
+  split at h
+  · cases h
+  · split at h
+    · cases h
+    · rename_i s hs
+      split at h
+      · rename_i hst; rw [hs, hst]
+      · cases h
+  · split at h
+    · cases h
+    · rename_i s hs
+      have : s = true := by
+        cases s with
+        | true => rfl
+        | false => simp at h
+      rw [hs, this]
+
+/-- ★ `breakCycles_acyclic` and `breakCycles_reach`, undirected graph (flag `False`, or inferred from a symmetric
+    matrix; the branch repaired by `fix:` 14b05e63): with scipy's contract for the components of the loop-free
+    graph, whatever the roots and the fuel are, the matrix returned by `break_cycles` is symmetric, joins exactly the
+    pairs of nodes the input joins (so every node reachable from a root stays reachable), and has no cycle: no
+    self-loop and no simple cycle with three nodes or more.
+    (Every removal `cur — nb` happens while the stacked path from `nb` to `cur` is intact —
+    `Lemmas/BreakInv.lean` — and when a traversal ends no simple path from its start node has a back edge —
+    `Lemmas/BreakAcyclic.lean`; every component contains a start node.) -/
+theorem breakCycles_undirected (fuel : Nat) (ext : BreakExt) (m : Mat) (root : Option (List Nat))
+    (directed : Option Bool) (a : Rows)
+    (hc : m.Canon) (hsq : m.nRow = m.nCol)
+    (hd : resolveDirected m directed = .ok false)
+    (hlab : IsLabelling m.nRow (noLoopRows m).row false (ext.labelsNoLoop false))
+    (h : breakCyclesWith fuel ext m root directed = .ok (.rows a)) :
+    a.Symm ∧
+    (∀ u v, u < m.nRow → (Reach m.adj u v ↔ Reach a.row u v)) ∧
+    ∀ C, ¬ IsSimpleCycle m.nRow a.row false C := by
+  have hs := resolveDirected_false hd
+  have hwf := Canon.wf hc hsq
+  have hsym := Canon.sym hc hs
+  -- the loop-free adjacency: symmetric, without self-loop
+  have hg0 : UGraph (noLoopRows m) (noLoopRows m) := by
+    refine ⟨Rows.Sub.refl _, ?_, fun _ _ h => h, ?_⟩
+    · intro u v hv
+      obtain ⟨hu, hmem, hne⟩ := (mem_noLoopRows m u v).mp hv
+      exact (mem_noLoopRows m v u).mpr ⟨hwf u hu v hmem, hsym u hu v hmem, Ne.symm hne⟩
+    · intro u hu
+      exact ((mem_noLoopRows m u u).mp hu).2.2 rfl
+  -- the run is the undirected branch
+  unfold breakCyclesWith at h
+  split at h
+  · cases h
+  · cases h
+  · split at h
+    · cases h
+    · rename_i rootl
+      split at h
+      · cases h
+      · simp only [hd] at h
+        unfold breakUndirected at h
+        simp only at h
+        split at h
+        · cases h
+        · rename_i aEnd hst
+          have hae : aEnd = a := by
+            have := Except.ok.inj h
+            exact BreakOut.rows.inj this
+          subst hae
+          obtain ⟨hg, _⟩ := breakStarts_inv fuel _ _ _ hg0 hst
+          obtain ⟨_, hdone⟩ := breakStarts_explores fuel _ _ _ hst
+          refine ⟨hg.symm, fun u v hu => ?_, fun C hC => ?_⟩
+          · rw [reach_noLoop_iff m hwf hu v]
+            exact ⟨hg.conn u v, Reach.mono hg.sub.2⟩
+          · obtain ⟨hnd, hlt, hcl, hlen⟩ := id hC
+            rcases hlen with hf | h1 | h3
+            · cases hf
+            · -- a self-loop: none is left
+              match C, h1, hcl with
+              | [v], _, hcl =>
+                have : isChain aEnd.row ([v] ++ [v]) = true := hcl
+                have hv : v ∈ aEnd.row v := by simpa [isChain] using this
+                exact hg.noloop v hv
+            · -- three nodes or more: the component's first node is a start node
+              obtain ⟨c, t, rfl⟩ : ∃ c t, C = c :: t := by
+                cases C with
+                | nil => simp at h3
+                | cons c t => exact ⟨c, t, rfl⟩
+              have hcn : c < m.nRow := hlt c List.mem_cons_self
+              obtain ⟨hlenl, hsame⟩ := hlab
+              have hcl' : c < (ext.labelsNoLoop false).length := hlenl ▸ hcn
+              have hL : (ext.labelsNoLoop false).getD c 0 ∈ ext.labelsNoLoop false := by
+                simp [List.getD_eq_getElem?_getD, hcl']
+              have hsl : firstOfLabel (ext.labelsNoLoop false) ((ext.labelsNoLoop false).getD c 0) <
+                  (ext.labelsNoLoop false).length := List.idxOf_lt_length_iff.mpr hL
+              have hslab : (ext.labelsNoLoop false).getD
+                  (firstOfLabel (ext.labelsNoLoop false) ((ext.labelsNoLoop false).getD c 0)) 0 =
+                  (ext.labelsNoLoop false).getD c 0 := by
+                have hsl' : List.idxOf ((ext.labelsNoLoop false).getD c 0) (ext.labelsNoLoop false) <
+                    (ext.labelsNoLoop false).length := hsl
+                show (ext.labelsNoLoop false).getD (List.idxOf ((ext.labelsNoLoop false).getD c 0)
+                  (ext.labelsNoLoop false)) 0 = _
+                rw [List.getD_eq_getElem?_getD, List.getElem?_eq_getElem hsl']
+                exact List.getElem_idxOf hsl'
+              have hstart : firstOfLabel (ext.labelsNoLoop false) ((ext.labelsNoLoop false).getD c 0) ∈
+                  rootl ++ firstNodes (ext.labelsNoLoop false) :=
+                List.mem_append_right _ (List.mem_map.mpr ⟨_, mem_npUnique.mpr hL, rfl⟩)
+              have hsn := hlenl ▸ hsl
+              have hweak := (hsame _ c hsn hcn).mp hslab
+              simp only [SameComp, Bool.false_eq_true, ↓reduceIte] at hweak
+              -- in a symmetric graph the weak component is the component
+              have hreach0 : Reach (noLoopRows m).row
+                  (firstOfLabel (ext.labelsNoLoop false) ((ext.labelsNoLoop false).getD c 0)) c := by
+                refine Reach.mono ?_ hweak
+                intro x y hy
+                rcases List.mem_append.mp hy with h' | h'
+                · exact h'
+                · have := (List.mem_filter.mp h').2
+                  exact hg0.symm y x (by simpa using this)
+              exact no_cycle_of_startDone (hdone _ hstart) hC h3 List.mem_cons_self (hg.conn _ _ hreach0)
+
+/-- a triangle next to the root's component (the witness of finding F-C12-components): with the repaired code the
+    model breaks it too -/
+def triangleAndEdge : Mat :=
+  ⟨5, 5, fun i => if i = 0 then [1, 2] else if i = 1 then [0, 2] else if i = 2 then [0, 1] else if i = 3 then [4] else [3],
+    fun i j => if (i < 3 ∧ j < 3 ∧ i ≠ j) ∨ (i = 3 ∧ j = 4) ∨ (i = 4 ∧ j = 3) then 1 else 0⟩
+
+example : breakCycles { nCC := fun _ => 2, labelsNoLoop := fun _ => [0, 0, 0, 1, 1], setOrder := fun l => sortNat l.eraseDups }
+    triangleAndEdge (some [3]) none = .ok (.rows [[2], [2], [0, 1], [4], [3]]) := by rfl
+example : IsLabelling 5 (noLoopRows triangleAndEdge).row false [0, 0, 0, 1, 1] :=
+  contract_line_certifies 5 _ (by decide) false _ (by decide)
 
 end SkNet.C12
